@@ -13,14 +13,22 @@ Inductive hop :=
 | HRestart                          (* project = Project(root) *)
 | HDelCache                         (* os.remove(cache file), missing file ignored *)
 | HQuery                            (* the observations, taken through the CURRENT session *)
-| HMisname (a b : json).            (* os.rename(workspace/id(a), workspace/id(b)) when possible: corruption *)
+| HMisname (a b : json)             (* os.rename(workspace/id(a), workspace/id(b)) when possible: corruption *)
+| HRekeyId (old new : json)         (* j = project.open_job(id=id(old)); j.statepoint = new   (handle reached BY ID) *)
+| HPlant (us : list json)           (* harness writes workspace/id(u)/signac_statepoint.json = dumps(u) for every u
+                                       whose directory does not exist (a workspace filled by another process) *)
+| HFile.                            (* decoded cache file + os.listdir of the workspace, without any session *)
 
 (* the observations made through one session: the listed-id observations of Cache.obs, then open_job(id=p)
    followed by statepoint() for every ABBREVIATED id p of the case *)
 Definition pre_obs := list (str * result (str * result json)).
-Record xobs := mkX { x_obs : obs; x_pre : pre_obs }.
+(* ... then open_job(id=i).cached_statepoint for every listed i (the same is asserted of iteration handles), then
+   open_job(id=u).statepoint() for every universe id u that is NOT listed (stale cache entries) *)
+Record xobs := mkX { x_obs : obs; x_pre : pre_obs; x_cached : list (str * result json);
+                     x_uopen : list (str * result json) }.
 
-Inductive ret := RUnit | RNone | RNum (n : N) | RExn (e : exn) | RObs (o : xobs).
+Inductive ret := RUnit | RNone | RNum (n : N) | RExn (e : exn) | RObs (o : xobs)
+               | RFile (k : option cache) (ids : list str).
 
 Record sobs := mkSobs {
   so_with : xobs;                   (* fresh session, cache file as it is *)
@@ -32,7 +40,8 @@ Record hstep := mkStep { st_op : hop; st_ret : ret; st_obs : option sobs }.
 
 Record case_C08 := {
   c8_ftab : list (fl * str);        (* repr() of the floats of the universe *)
-  c8_univ : list json;              (* every state point that occurs: its file text is dumps of it *)
+  c8_tab : list (list N * json);    (* decoding table: dumps of every state point that occurs -> the value *)
+  c8_uids : list str;               (* ids of the universe state points (opened even when not listed) *)
   c8_key : str; c8_val : json;      (* the filter {key: val} used by every find_jobs *)
   c8_pres : list str;               (* the abbreviated ids opened in every observation *)
   c8_steps : list hstep
@@ -50,9 +59,8 @@ Fixpoint tab_lookup (t : list (list N * json)) (b : list N) : option json :=
 Section INST.
   Variable c : case_C08.
   Definition fr8 : fl -> str := ftab_lookup (c8_ftab c).
-  Definition tab8 : list (list N * json) := map (fun v => (dumps fr8 v, v)) (c8_univ c).
-  Definition ls8 (b : list N) : option json := tab_lookup tab8 b.
-  Definition lb8 (b : list N) : dec := match tab_lookup tab8 b with Some v => DVal v | None => DJsonErr end.
+  Definition ls8 (b : list N) : option json := tab_lookup (c8_tab c) b.
+  Definition lb8 (b : list N) : dec := match tab_lookup (c8_tab c) b with Some v => DVal v | None => DJsonErr end.
 
   (* per-job meaning of the filter {key: val} (values under the key are ints in the universe) *)
   Definition ev8 (sp : json) : bool :=
@@ -68,7 +76,14 @@ Section INST.
   Definition xobserve (f : fs) (s : sess) : sess * xobs :=
     let '(s1, ob) := observe fr8 ls8 lb8 f s ev8 in
     let '(s2, pre) := open_pres fr8 lb8 f s1 (c8_pres c) in
-    (s2, mkX ob pre).
+    let '(s3, cached) := cached_all fr8 ls8 f s2 (listing f) in
+    let '(s4, uopen) := open_all fr8 lb8 f s3 (filter (fun u => negb (str_mem u (listing f))) (c8_uids c)) in
+    (s4, mkX ob pre cached uopen).
+
+  (* a directory with its state point file, as another process would have created it *)
+  Definition plant (f : fs) (u : json) : fs :=
+    let i := calc_id fr8 u in
+    if exists_ f (jdir i) then f else (spf i, File (sp_content fr8 u)) :: (jdir i, Dir) :: f.
 
   Definition ret_unit (r : result unit) : ret := match r with Ok _ => RUnit | Err e => RExn e end.
 
@@ -87,6 +102,9 @@ Section INST.
     | HRestart => ((f, fresh), RUnit)
     | HDelCache => ((match unlink f CACHEP with FOk f1 => f1 | FErr _ => f end, s), RUnit)
     | HQuery => let '(s1, ob) := xobserve f s in ((f, s1), RObs ob)
+    | HRekeyId a b => let '(f1, s1, r) := op_rekey_id fr8 lb8 f s (cid8 a) b in ((f1, s1), ret_unit r)
+    | HPlant us => ((fold_left plant us f, s), RUnit)
+    | HFile => ((f, s), RFile (cache_file f) (listing f))
     | HMisname a b =>
         ((if isdir f (jdir (cid8 a)) && negb (exists_ f (jdir (cid8 b))) then
             match rename f (jdir (cid8 a)) (jdir (cid8 b)) with FOk f1 => f1 | FErr _ => f end
@@ -133,7 +151,10 @@ Section INST.
     Nat.eqb (length a) (length b) &&
     forallb (fun p => match alookup (fst p) b with Some r => res_pre_same (snd p) r | None => false end) a.
 
-  Definition xobs_same (a b : xobs) : bool := obs_same (x_obs a) (x_obs b) && pres_same (x_pre a) (x_pre b).
+  Definition xobs_same (a b : xobs) : bool :=
+    obs_same (x_obs a) (x_obs b) && pres_same (x_pre a) (x_pre b) && opens_same (x_cached a) (x_cached b).
+  (* model against implementation: the unlisted-id observations as well *)
+  Definition xobs_match (a b : xobs) : bool := xobs_same a b && opens_same (x_uopen a) (x_uopen b).
 
   Definition cache_le (a b : cache) : bool :=
     forallb (fun p => match alookup (fst p) b with Some v => json_same8 (snd p) v | None => false end) a.
@@ -152,12 +173,13 @@ Section INST.
     | RUnit, RUnit | RNone, RNone => true
     | RNum n, RNum m => N.eqb n m
     | RExn e, RExn e' => exn_eqb e e'
-    | RObs x, RObs y => xobs_same x y
+    | RObs x, RObs y => xobs_match x y
+    | RFile k ids, RFile k' ids' => file_same k k' && seteq_s ids ids' && Nat.eqb (length ids) (length ids')
     | _, _ => false
     end.
 
   Definition sobs_same (a b : sobs) : bool :=
-    xobs_same (so_with a) (so_with b) && xobs_same (so_without a) (so_without b)
+    xobs_match (so_with a) (so_with b) && xobs_match (so_without a) (so_without b)
     && file_same (so_file a) (so_file b).
 
   (* model run against the recorded steps *)
@@ -181,9 +203,19 @@ Section INST.
 
   Definition sound_b (k : cache) : bool := forallb (fun p => str_eqb (cid8 (snd p)) (fst p)) k.
 
-  (* clause 1: every entry of the persistent cache hashes to its key *)
+  (* never wrong: whatever open-by-id shows (statepoint() or cached_statepoint, listed id or stale cache entry)
+     hashes to the id *)
+  Definition opens_sound (l : list (str * result json)) : bool :=
+    forallb (fun p => match snd p with Ok sp => str_eqb (cid8 sp) (fst p) | Err _ => true end) l.
+  Definition xobs_sound (x : xobs) : bool :=
+    opens_sound (o_open (x_obs x)) && opens_sound (x_cached x) && opens_sound (x_uopen x).
+
+  (* clause 1: every entry of the persistent cache hashes to its key, and so does every state point served *)
   Definition clause_sound (o : sobs) : bool :=
     match so_file o with Some k => sound_b k | None => true end.
+  Definition clause_served (r : ret) (o : option sobs) : bool :=
+    match r with RObs q => xobs_sound q | _ => true end
+    && match o with Some x => xobs_sound (so_with x) && xobs_sound (so_without x) | None => true end.
 
   (* clause 2: transparency *)
   Definition clause_transparent (r : ret) (o : sobs) : bool :=
@@ -222,6 +254,7 @@ Section INST.
     end.
 
   Definition step_c12 (x : hstep) : bool :=
+    clause_served (st_ret x) (st_obs x) &&
     match st_obs x with
     | Some o => clause_sound o && clause_transparent (st_ret x) o
     | None => true
@@ -229,10 +262,26 @@ Section INST.
   Definition step_c3 (x : hstep) (next : option hstep) : bool :=
     match st_obs x with Some o => clause_exact x o next | None => true end.
 
+  (* update_cache() returned, the next step looks at the file without any session: exact w.r.t. os.listdir *)
+  Definition clause_exact_file (x : hstep) (next : option hstep) : bool :=
+    match st_op x, st_ret x, next with
+    | HUpdate, RNone, Some y | HUpdate, RNum _, Some y =>
+        match st_op y, st_ret y with
+        | HFile, RFile (Some k) ids =>
+            keys_distinct (map fst k) && seteq_s (map fst k) ids && sound_b k
+            && match st_ret x with RNum n => N.eqb n (N.of_nat (length k)) | _ => true end
+        | HFile, _ => false
+        | HUpdate, RNone => true          (* an immediate second call reports nothing to do *)
+        | HUpdate, RNum _ => false
+        | _, _ => true
+        end
+    | _, _, _ => true
+    end.
+
   Fixpoint holds_steps (steps : list hstep) : bool :=
     match steps with
     | [] => true
-    | x :: r => step_c12 x && step_c3 x (hd_error r) && holds_steps r
+    | x :: r => step_c12 x && step_c3 x (hd_error r) && clause_exact_file x (hd_error r) && holds_steps r
     end.
 
   Definition holds8 : bool := holds_steps (c8_steps c).
